@@ -4,6 +4,7 @@ import EdpVerif.Impl.Handshake
 import EdpVerif.Generated.Control
 import EdpVerif.Impl.Den
 import EdpVerif.Spec.Wire
+import EdpVerif.Generated.Misc
 /-!
 Model of the send side of crates/edp_client/src/connection.rs
 (`send_message`, `send_to_name`, `link`, `unlink`, `monitor`, `demonitor`, `send_control_message`), of
@@ -27,8 +28,9 @@ namespace Edp.Send
 open Edp Edp.Control
 open Edp.Impl.Handshake (ConnState)
 
-/-- `DistributionFlags::DIST_HDR_ATOM_CACHE` (flags.rs) -/
-def DIST_HDR_ATOM_CACHE : Nat := 0x2000
+/-- the flag `send_control_message` looks for in the negotiated flags (`Gen.C07_HEADER_MODE_FLAG`, read off the source),
+with the value flags.rs gives it (`Gen.DIST_FLAGS`): `DistributionFlags::DIST_HDR_ATOM_CACHE` -/
+def DIST_HDR_ATOM_CACHE : Nat := (Gen.DIST_FLAGS.lookup Gen.C07_HEADER_MODE_FLAG).getD 0
 
 /-- `DistributionFlags::has` for a single-bit flag -/
 def hasFlag (flags bit : Nat) : Bool := flags / bit % 2 = 1
@@ -147,7 +149,8 @@ def distHeader (order : List Bytes) (terms : List Term) : Except Err Bytes :=
     match encL [] terms with
     | .ok b => .ok (131 :: 68 :: 0 :: b)
     | .error _ => .error .encode
-  else if order.length > 255 then .error .encode
+  -- `if atom_set.len() > 255 { return Err(TooManyAtoms) }`: the limit is read off the source
+  else if order.length > Gen.C07_HEADER_MAX_ATOMS then .error .encode
   else if order.any (fun a => decide (a.length > u16max)) then .error .encode
   else
     let long := order.any (fun a => decide (a.length > 255))
@@ -162,6 +165,37 @@ def usePassThrough (c : Conn) : Bool :=
   match c.neg with
   | some f => !hasFlag f DIST_HDR_ATOM_CACHE
   | none => true
+
+/-! The writes themselves are not transcribed by hand: the translator reads the guarded write sequences of
+`send_control_message` off the source (`Gen.C07_SEND_BRANCHES`, `Gen.C07_HEADER_BUFFER`) and the functions below interpret
+them.  Reordering, dropping or adding a write in the source changes what the model writes. -/
+
+/-- one step of a pass-through branch: the bytes it writes (`none` for the guard, yield points, flush) -/
+def writeOfStep (frameLen : Nat) (ce me : Bytes) (step : String) : Option Bytes :=
+  if step = "write_u32:frame_len" then some (be32 frameLen)
+  else if step = "write_u8:PASS_THROUGH" then some [UInt8.ofNat Gen.C07_PASS_THROUGH]
+  else if step = "write_all:control_encoded" then some ce
+  else if step = "write_all:msg_encoded" then some me
+  else none
+
+def writesFromSteps (frameLen : Nat) (ce me : Bytes) (steps : List String) : List Bytes :=
+  steps.filterMap (writeOfStep frameLen ce me)
+
+/-- the writes of the pass-through branch with (`0`) / without (`1`) a payload -/
+def ptWrites (withPayload : Bool) (frameLen : Nat) (ce me : Bytes) : List Bytes :=
+  writesFromSteps frameLen ce me (Gen.C07_SEND_BRANCHES.getD (if withPayload then 0 else 1) [])
+
+/-- header mode: the single buffer (`put_u32(frame_length(encoded.len())?)`, `put_slice(&encoded)`) -/
+def bufOf (enc : Bytes) (puts : List String) : Bytes :=
+  (puts.map fun p =>
+    if p = "put_u32:Self::frame_length(encoded.len())?" then be32 enc.length
+    else if p = "put_slice:encoded" then enc
+    else []).flatten
+
+/-- the writes of the distribution-header branch -/
+def hdrWrites (withPayload : Bool) (enc : Bytes) : List Bytes :=
+  (Gen.C07_SEND_BRANCHES.getD 2 []).filterMap fun s =>
+    if s = "write_all:buf" then some (bufOf enc (Gen.C07_HEADER_BUFFER.getD (if withPayload then 0 else 1) [])) else none
 
 /-- `send_control_message`: the writes, in order -/
 def sendControlMessage (c : Conn) (order : List Bytes) (control : Msg) (message : Option Term) :
@@ -181,11 +215,11 @@ def sendControlMessage (c : Conn) (order : List Bytes) (control : Msg) (message 
             if 1 + ce.length + me.length > u32max then .error .tooLarge
             else if !c.stream then .error .noStream
             -- `write_u32(frame_len)`, `write_u8(112)`, `write_all(control)`, `write_all(msg)`
-            else .ok [be32 (1 + ce.length + me.length), [112], ce, me]
+            else .ok (ptWrites true (1 + ce.length + me.length) ce me)
         | none =>
           if 1 + ce.length > u32max then .error .tooLarge
           else if !c.stream then .error .noStream
-          else .ok [be32 (1 + ce.length), [112], ce]
+          else .ok (ptWrites false (1 + ce.length) ce [])
     else
       let terms := match message with
         | some m => [ct, m]
@@ -196,7 +230,7 @@ def sendControlMessage (c : Conn) (order : List Bytes) (control : Msg) (message 
         if enc.length > u32max then .error .tooLarge
         else if !c.stream then .error .noStream
         -- one buffer: `put_u32(frame_length(encoded.len())?)`, `put_slice(&encoded)`, one `write_all`
-        else .ok [be32 enc.length ++ enc]
+        else .ok (hdrWrites message.isSome enc)
 
 /-- the gate at the top of every operation, then `send_control_message` -/
 def sendOp (c : Conn) (order : List Bytes) (op : Op) : Except Err (List Bytes) :=
